@@ -368,7 +368,7 @@ func genHistory(r *lib.Rng, maxOps int) (string, bool, []*op) {
 			} else {
 				p = genProto(r, codec)
 			}
-			if r.Intn(60) == 0 {
+			if p.Version == 1 && r.Intn(60) == 0 {
 				p.MhType = 0x99 // no such hasher: setup error, nothing else happens
 			}
 			protos = append(protos, p)
